@@ -55,6 +55,34 @@ CHECKS = {
    "Every sequence of <= 3/4 lines from a 7-line set (empty, space-only, trailing spaces, repeated) is fed through the reorder protocol on dictionaries with both ignore_space settings; the statistics must equal the counts of the reference lattice, be sorted by frequency then id and be accepted by map_connection_ids_from_iter with unchanged tokenization.",
    "reference lattice recounts (predecessor, node) pairs independently",
    "bounded exhaustive operation-sequence enumeration against a reference recount"),
+ "C14": ("E6 trained-model universe + model hooks", "4.C14",
+   "Every configuration of a finite training family (3 seed lexicons x 2 unk.def x 2 char.def x all 31 template subsets x 2 rewrite.def x 4 corpora x 4 user-lexicon settings; quick: a deterministic half) is really trained; then every assignment of the first 3/5 weights from {-1,-0.37,0.5,1} is injected into the trained structure; in every state the four generated files are compared with the image recomputed from the raw model through rucrf's public merge(): rows, order, verbatim surfaces/features, ids, dimensions, every cost, user rows, and the files must compile.",
+   "the CRF optimiser is the environment; rucrf merge() trusted; float costs accepted within one unit only at integer boundaries",
+   "bounded exhaustive enumeration of training configurations and injected weight vectors against a recomputed image"),
+ "C15": ("E2 over E6", "4.C15",
+   "For a slice of the trained family, every history of <= 3/4 ops over {generate, generate-bigram, write_model->read_model, add user lexicon x2} is executed on a freshly trained model; from the first round trip on, the in-memory model and its reloaded twin are compared file by file at every generation (bigram.cost as a multiset), and repeated generation must be stable.",
+   "user lexicons added before a round trip are not persisted by write_model, so user.csv is not compared for those histories",
+   "explicit-state exploration of operation histories with a bisimulation oracle"),
+ "C16": ("E6 + conn-cost hook", "4.C16",
+   "For every trained model of the C14 family and every injected weight vector, the emitted bigram files are compiled with the raw and the dual connector and matrix.def with the matrix connector; every id pair incl. row/column 0 must agree within K+1 and the dimensions must be equal. A discrepancy is attributed to the recorded finding K3 only if the real table equals the string-level sum in which '*' is an ordinary feature and the sum over the model's true feature tuples is within K+1 of matrix.def.",
+   "K3 (literal '*' feature) and K6 (rucrf panic on an empty bigram table) are recorded findings",
+   "bounded exhaustive enumeration of training configurations with a cross-compilation oracle"),
+ "C17": ("product enumeration + rewrite hook", "4.C17",
+   "All ordered rule lists of <= 3/4 rules with patterns of 1-2 (thorough 1-3) columns over {*,a,b,(a|b)} x all feature lists of length 0-3 over {a,b,c} are applied by the real rewriter (rule-list hook and rewrite.def text with all section assignments) and compared with 'first rule in list order that matches position-wise as a prefix'.",
+   "a pattern longer than the feature list does not match",
+   "bounded exhaustive enumeration against a reference rewriter"),
+ "C18": ("product enumeration + template hook; E6 for the dictionary level", "4.C18",
+   "Function level: all sets of 1-2/3 templates of a 12-template menu per kind x all feature rows of length 0-3 over {a,b,*,\"p,q\"} x 2 category ids against a string-level expander (strings, optional references, equal strings <=> equal ids). Dictionary level: for every really trained model of the C14 family, words with equal reference (rewritten) context tuples share the connection id, and bigram.left/right list exactly those tuples or '*'.",
+   "the reference rewrite and expander are string-level re-implementations of the documented semantics",
+   "bounded exhaustive enumeration against a reference expander"),
+ "C19": ("E4/E1 corpus enumerator", "4.C19",
+   "Every sequence of <= 5/6 lines from an 8-line menu (tokens, empty surface, token spelled EOS, EOS, malformed lines, empty line), with and without final newline, is parsed, written back and re-parsed and compared with a reference line reader; the MeCab-style output of the tokenizer for all tab-free sentences <= 4/5 chars on lexicon dictionaries (incl. a word spelled EOS) must parse into exactly the tokens.",
+   "the tokenize binary's three writes per token are mirrored, the binary itself is not run",
+   "bounded exhaustive input enumeration against a reference reader"),
+ "C20": ("product enumeration + conn-cost hook", "4.C20",
+   "Template sets x id tables (8 shapes incl. missing id 0, gap, malformed, unordered) x all 512 subsets of a 9-line model.def menu x 2 cost factors: accepted conversions are compiled and every non-zero id pair compared with the sum over applicable templates of -trunc(w x factor) for the line whose text is left expansion '/' right expansion; malformed tables must be errors.",
+   "id tables without id 0 are treated as valid with an implicit BOS/EOS",
+   "bounded exhaustive enumeration against a string-level reference"),
 }
 
 NOT_YET = {}
